@@ -247,12 +247,15 @@ class Access:
 
 
 class FxAnalyzer:
-    def __init__(self, func, types, cap=CAP, soft=True, state_ids=None, entry_fields=None, callee_post=None):
+    def __init__(self, func, types, cap=CAP, soft=True, state_ids=None, entry_fields=None, callee_post=None,
+                 other_ptrs=None, state_rec=None):
         self.f, self.ty, self.cap = func, types, cap
         self.soft = soft           # use the value range of narrow unsigned types (sound for proofs; never the ground of a report)
         self.state_ids = state_ids or set()      # variables holding the pointer to the state structure
         self.entry_fields = entry_fields or {}   # field -> interval assumed at entry (a proved family invariant)
         self.callee_post = callee_post or {}     # family function -> {field: interval} guaranteed at its exit
+        self.other_ptrs = other_ptrs or {}       # id of another structure pointer -> (group, record): fields tracked
+        self.state_rec = state_rec               #   inside this function only (no invariant is assumed for them)
         self.ktype = {}                          # env key -> C type (for the sign of unknown values)
         self.exit_fields = None                  # field -> hull of its values at the exits and at calls into the family
         self.exit_seen = False
@@ -280,7 +283,7 @@ class FxAnalyzer:
 
     def fkey(self, e):
         """env key of an integer field of the state structure reached through one of the state pointers"""
-        if not self.state_ids or not isinstance(e, dict):
+        if not (self.state_ids or self.other_ptrs) or not isinstance(e, dict):
             return None
         while e.get("k") == "Paren":
             e = e["e"]
@@ -289,11 +292,16 @@ class FxAnalyzer:
         b = strip(e["b"])
         while isinstance(b, dict) and b.get("k") == "Paren":
             b = strip(b["e"])
-        if not (isinstance(b, dict) and b.get("k") == "Ref" and b.get("id") in self.state_ids):
+        if not (isinstance(b, dict) and b.get("k") == "Ref"):
             return None
         if self.ty.sizeof(e.get("t") or "") not in (1, 2, 4, 8):
             return None
-        k = ("f", e["f"])
+        if b.get("id") in self.state_ids:
+            k = ("f", e["f"])
+        elif b.get("id") in self.other_ptrs and b.get("id") not in self.untracked:
+            k = ("g", self.other_ptrs[b["id"]][0], e["f"])
+        else:
+            return None
         self.ktype[k] = e.get("t") or ""
         return k
 
@@ -838,7 +846,21 @@ class FxAnalyzer:
                     if lo is not None and (v[0] is None or lo > v[0]):
                         v = (lo, v[1])
         self.ktype[key] = lhs.get("t") or ""
-        return env.kill(key).set(key, self.fit(lhs, v))
+        env = env.kill(key).set(key, self.fit(lhs, v))
+        if isinstance(key, tuple) and self.other_ptrs:
+            # two pointers to the same structure type may point to the same object
+            rec = self.state_rec if key[0] == "f" else self.group_rec(key[1])
+            for k2 in [k2 for k2 in env.m if isinstance(k2, tuple) and k2 != key and k2[-1] == key[-1]]:
+                rec2 = self.state_rec if k2[0] == "f" else self.group_rec(k2[1])
+                if rec is None or rec2 is None or rec == rec2:
+                    env = env.kill(k2).set(k2, None)
+        return env
+
+    def group_rec(self, grp):
+        for g, rec in self.other_ptrs.values():
+            if g == grp:
+                return rec
+        return None
 
     def fit(self, ref, v):
         """a value stored into a variable of unsigned type: out-of-range values wrap, so nothing is known"""
@@ -871,9 +893,9 @@ class FxAnalyzer:
     def call_effects(self, e, env):
         """a call that receives the state pointer may change every field; a member of the family leaves the fields
         inside the family invariant (and must be entered with them inside it: recorded like an exit)"""
-        if not self.state_ids:
+        if not (self.state_ids or self.other_ptrs):
             return env
-        whole, single = False, []
+        whole, single, groups = False, [], set()
         proto = PROTO_OF(e.get("callee")) if PROTO_OF is not None else None
         for ai, a in enumerate(e["a"]):
             if proto is not None and ai < len(proto.params) and proto.params[ai].get("pc"):
@@ -885,12 +907,16 @@ class FxAnalyzer:
                 continue
             if x.get("k") == "Ref" and x.get("id") in self.state_ids:
                 whole = True
+            elif x.get("k") == "Ref" and x.get("id") in self.other_ptrs:
+                groups.add(self.other_ptrs[x["id"]][0])
             elif x.get("k") == "Un" and x.get("op") == "&":
                 fk = self.fkey(x["e"])
                 if fk is not None:
                     single.append(fk)
         for fk in single:
             env = env.kill(fk).set(fk, None)
+        for k in [k for k in env.m if isinstance(k, tuple) and k[0] == "g" and k[1] in groups]:
+            env = env.kill(k).set(k, None)
         if not whole:
             return env
         post = self.callee_post.get(e.get("callee"))
